@@ -1155,7 +1155,14 @@ func (s *Server) Get(req *protoobject.GetRequest, gStream protoobject.ObjectServ
 
 	if isPartialRange {
 		if !payloadOnly {
-			if err = s.copyGetResponseHeader(gStream, hdrRespBuf, hdrBuf, pldFldOff, needSignResp); err != nil {
+			// the range stream may still serve payload bytes pre-read into hdrBuf, and
+			// the header response (its signature in particular) is written in place:
+			// use a separate buffer for it
+			hdrOnlyRespBuf, hdrOnlyBuf := getBufferForHeadResponse()
+			copy(hdrOnlyBuf, hdrBuf[:pldFldOff])
+			err = s.copyGetResponseHeader(gStream, hdrOnlyRespBuf, hdrOnlyBuf, pldFldOff, needSignResp)
+			hdrOnlyRespBuf.Free()
+			if err != nil {
 				return s.sendStatusGetResponse(req, gStream, err, needSignResp)
 			}
 		}
